@@ -784,8 +784,8 @@ def execute(plan: dict) -> dict:
 
 def families(tier: str):
     if tier == "quick":
-        return [("sched", 220), ("damage", 60), ("stale", 60), ("sweepq", 12), ("sweepd", 12), ("sweepfull", 1)]
-    return [("sched", 12000), ("damage", 3000), ("stale", 3000), ("sweepq", 700), ("sweepd", 900), ("full", 32), ("sweepfull", 6)]
+        return [("sched", 220), ("damage", 60), ("stale", 60), ("nocache", 50), ("sweepq", 12), ("sweepd", 12), ("sweepfull", 1)]
+    return [("sched", 12000), ("damage", 3000), ("stale", 3000), ("nocache", 3000), ("sweepq", 700), ("sweepd", 900), ("full", 32), ("sweepfull", 6)]
 
 
 def _workload(rng: random.Random, n_max: int = 6, need_cfg: bool = False):
@@ -858,6 +858,21 @@ def gen_plan(family: str, i: int, rng: random.Random, tier: str) -> dict:
             phases.append(_procs_phase(rng, min(nmax, 4), crash_rate=0.1))
         phases.append({"kind": "heal"})
         return {"profile": profile, "phases": phases}
+    if family == "nocache":
+        # one cache-disabled process (its clear_cache() removes the whole folder, lock files included) among normal ones
+        phases = []
+        if rng.random() < 0.6:
+            phases.append({"kind": "procs", "procs": [{"flavour": "normal", "workload": _workload(rng, need_cfg=True)}], "sched": [], "sched_seed": 0})
+        if rng.random() < 0.3:
+            phases.append(_damage_phase(rng))
+        ph = _procs_phase(rng, 5, crash_rate=rng.choice([0.0, 0.2]))
+        for p_ in ph["procs"]:
+            p_["flavour"] = "normal"
+        ph["procs"][rng.randrange(len(ph["procs"]))]["flavour"] = "nocache"
+        if len(ph["procs"]) > 3 and rng.random() < 0.3:
+            ph["procs"][0]["flavour"] = "nocache"
+        phases += [ph, {"kind": "heal"}]
+        return {"profile": "tiny", "phases": phases}
     if family == "stale":
         # warm cache holding the target's records, the data file changes, then processes that reach the target
         # through different orders of other queries (a stale record must not survive by being merged back)
